@@ -37,7 +37,8 @@ TRUSTED = [
 ]
 ASSUMPTIONS = [
     'wavelengths within 1e-6 relative of the 2000 A threshold are not generated, except exactly 2000.0 in Angstrom (astropy converts 200 nm to 1999.9999999999998 A, as the repository tests note)',
-    'float64 data; float32 arrays are outside the 1e-12 correspondence tolerance',
+    'float32 wavelength arrays are compared with the float64 result of the same call at 2e-6 relative (not sent to Coq); float32 flux '
+    'images of filter_thru are checked at 5e-6 (float64: 1e-9)',
     'filter_thru: every trace keeps at least two unmasked pixels (djs_maskinterp returns the input row unchanged when every pixel is '
     'masked, so nothing can be independent of masked values there); wavelength solutions are monotone in pixel, increasing or decreasing',
     'round-trip theorem and checks cover 2000 A .. 30 um (3e5 A); below 2000 A both functions are the identity',
@@ -120,6 +121,12 @@ def gen_wavelength(rng, unit='AA', lo=100.0, hi=3.0e5):
             return x
 
 
+def f32(x):
+    """x rounded to the nearest float32 (as a Python float)"""
+    import struct
+    return struct.unpack('f', struct.pack('f', x))[0]
+
+
 def check_wave(ctx, viol):
     rng = ctx.rng
     jobs = []
@@ -131,6 +138,14 @@ def check_wave(ctx, viol):
             jobs.append({'op': 'wave', 'fn': fn, 'kind': 'array', 'unit': 'AA', 'values': [gen_wavelength(rng) for _ in range(40)]})
             jobs.append({'op': 'wave', 'fn': fn, 'kind': 'array', 'unit': 'AA', 'values': [gen_wavelength(rng, hi=1990.0) for _ in range(6)]})
             jobs.append({'op': 'wave', 'fn': fn, 'kind': 'array2d', 'unit': 'AA', 'shape': [3, 4], 'values': [gen_wavelength(rng) for _ in range(12)]})
+            # integer wavelengths (Python int, numpy int scalars, integer-dtype arrays) and float32 arrays
+            ints = [int(round(gen_wavelength(rng))) for _ in range(30)]
+            ints = [v for v in ints if v != 2000 or True]
+            jobs.append({'op': 'wave', 'fn': fn, 'kind': 'int_scalar', 'unit': 'AA', 'values': ints[:8]})
+            jobs.append({'op': 'wave', 'fn': fn, 'kind': rng.choice(['npint32_scalar', 'npint64_scalar']), 'unit': 'AA', 'values': ints[8:14]})
+            jobs.append({'op': 'wave', 'fn': fn, 'kind': 'int64_array', 'unit': 'AA', 'values': ints[14:22] + [2000, 1500, 9500]})
+            jobs.append({'op': 'wave', 'fn': fn, 'kind': 'int32_array', 'unit': 'AA', 'values': ints[22:] + list(range(1500, 9500, 1000))})
+            jobs.append({'op': 'wave', 'fn': fn, 'kind': 'f32_array', 'unit': 'AA', 'values': [f32(gen_wavelength(rng)) for _ in range(16)]})
             for unit in ('AA', 'nm', 'um'):
                 jobs.append({'op': 'wave', 'fn': fn, 'kind': 'quantity', 'unit': unit, 'values': [gen_wavelength(rng, unit) for _ in range(16)]})
                 jobs.append({'op': 'wave', 'fn': fn, 'kind': 'quantity', 'unit': unit, 'values': [gen_wavelength(rng, unit, hi=1990.0) for _ in range(4)]})
@@ -185,9 +200,20 @@ def check_wave(ctx, viol):
             want = {'AA': 'Angstrom', 'nm': 'nm', 'um': 'um'}[unit]
             if r['unit'] != [want] or r['type'] != ['Quantity']:
                 viol('C19:%s:%s:unit' % (fn, kind), '%s answered in %s (%s) for a Quantity in %s' % (fn, r['unit'], r['type'], want), rep0, True)
-        if kind in ('array', 'array2d', 'quantity') and r['shape'] != (job.get('shape') or [len(job['values'])]):
+        if kind in ('array', 'array2d', 'quantity', 'int32_array', 'int64_array', 'f32_array') and r['shape'] != (job.get('shape') or [len(job['values'])]):
             viol('C19:%s:%s:shape' % (fn, kind), '%s changed the shape: %s' % (fn, r['shape']), rep0, True)
         k = UNIT_K[unit]
+        if kind == 'f32_array':
+            # float32 data: the same physical result as for the same wavelengths in float64, at float32 accuracy
+            for x, y, ref in zip(job['values'], r['values'], r['reference_f64']):
+                rep = {'kind': 'failing-input', 'input': {'fn': fn, 'kind': kind, 'unit': unit, 'value': x}, 'output': y, 'float64_result': ref}
+                if not isnum(y) or abs(y - ref) > 2e-6 * abs(ref):
+                    viol('C19:%s:f32_array:differs-from-float64' % fn, '%s(float32 %r) = %r, float64 input gives %r' % (fn, x, y, ref), rep, True)
+                elif x >= 2000.5 and not ((y > x) if fn == 'airtovac' else (y < x)):
+                    viol('C19:%s:f32_array:ordering' % fn, '%s(float32 %r) = %r: vacuum is not > air' % (fn, x, y), rep, True)
+                elif x < 1999.5 and y != x:
+                    viol('C19:%s:f32_array:below-changed' % fn, '%s(float32 %r) = %r below 2000 A' % (fn, x, y), rep, True)
+            continue
         for x, y in zip(job['values'], r['values']):
             if not isnum(y):
                 viol('C19:%s:%s:nonfinite' % (fn, kind), '%s(%r %s) = %r' % (fn, x, unit, y),
@@ -340,7 +366,56 @@ def check_flux(ctx, viol):
 # filter_thru
 # ----------------------------------------------------------------------------
 
-def gen_filter_job(ctx, small, direction=None, wave=None, cover=None):
+_FILTER_CURVES = {}
+
+
+def filter_curve(band):
+    """(lam, respt) columns of the filter file filter_thru reads for this band"""
+    if band not in _FILTER_CURVES:
+        lam, resp = [], []
+        path = os.path.join(C.REPO, 'pydl/pydlutils/data/filters/sdss_jun2001_%s_atm.dat' % band)
+        for line in open(path):
+            if line.lstrip().startswith('#') or not line.strip():
+                continue
+            f = line.split()
+            lam.append(float(f[0]))
+            resp.append(float(f[1]))
+        _FILTER_CURVES[band] = (lam, resp)
+    return _FILTER_CURVES[band]
+
+
+def interp_lin(x, xs, ys):
+    if x <= xs[0]:
+        return ys[0]
+    if x >= xs[-1]:
+        return ys[-1]
+    for k in range(len(xs) - 1):
+        if xs[k] <= x <= xs[k + 1]:
+            return ys[k] + (ys[k + 1] - ys[k]) * (x - xs[k]) / (xs[k + 1] - xs[k])
+
+
+def edge_grid(rng, band, side, nx, dl=1.0e-4):
+    """log-wavelength grid (loglam0, dloglam > 0) of an SDSS-like 1e-4 dex sampling that only just reaches into the faint toe
+    of `band`: the d(log lambda)-weighted response sums to a few 1e-8 (positive, far below float32 epsilon)."""
+    lam, resp = filter_curve(band)
+    pos = [k for k, r_ in enumerate(resp) if r_ > 0]
+    if side == 'blue':
+        la, lb = lam[pos[0] - 1], lam[pos[0]]
+    else:
+        la, lb = lam[pos[-1] + 1], lam[pos[-1]]
+    for f in (0.6, 0.45, 0.3, 0.2, 0.12, 0.08, 0.05, 0.03, 0.02):
+        end = la + f * (lb - la)
+        if side == 'blue':
+            l0 = math.log10(end) - dl * (nx - 1)
+        else:
+            l0 = math.log10(end)
+        tot = sum(dl * interp_lin(10 ** (l0 + dl * k), lam, resp) for k in range(nx))
+        if 0 < tot <= 6e-8:
+            return l0, dl, tot
+    return None
+
+
+def gen_filter_job(ctx, small, direction=None, wave=None, cover=None, dtype=None, edge=None):
     rng = ctx.rng
     nT = rng.randint(1, 3)
     nx = rng.randint(24, 48) if small else rng.randint(300, 1200)
@@ -358,10 +433,22 @@ def gen_filter_job(ctx, small, direction=None, wave=None, cover=None):
             l0, dl = l0 + dl * (nx - 1), -dl
         loglam0.append(l0)
         dloglam.append(dl)
+    predicted = None
+    if edge is not None:
+        # every trace only just touches the toe of one band (float32 epsilon is 1.2e-7: the band still overlaps)
+        nx = 300
+        g = edge_grid(rng, edge[0], edge[1], nx)
+        if g is not None:
+            l0, dl, predicted = g
+            if direction == 'red-to-blue':
+                l0, dl = l0 + dl * (nx - 1), -dl
+            loglam0, dloglam = [l0] * nT, [dl] * nT
+            kind = 'edge-%s-%s' % edge
     flux = [C.dyadic(rng, -2, 30, 6) for _ in range(nT * nx)]
     flux2 = [C.dyadic(rng, -10, 10, 6) for _ in range(nT * nx)]
-    job = {'op': 'filter', 'nT': nT, 'nx': nx, 'flux': flux, 'flux2': flux2, 'loglam0': loglam0, 'dloglam': dloglam,
-           'wave': wave or rng.choice(['waveimg', 'waveimg', 'wset']), 'toair': rng.random() < 0.3, 'direction': direction,
+    job = {'dtype': dtype or ('d' if small else rng.choice(['d', 'd', 'd', 'f4'])), 'predicted_edge_sum': predicted,
+           'op': 'filter', 'nT': nT, 'nx': nx, 'flux': flux, 'flux2': flux2, 'loglam0': loglam0, 'dloglam': dloglam,
+           'wave': wave or rng.choice(['waveimg', 'waveimg', 'wset']), 'toair': (rng.random() < 0.3) and edge is None, 'direction': direction,
            'a': C.dyadic(rng, -3, 3, 4), 'b': C.dyadic(rng, -3, 3, 4), 'c': C.dyadic(rng, -5, 50, 4),
            'mask': None, 'return_weights': small, 'cover': kind}
     if rng.random() < 0.6:
@@ -392,6 +479,11 @@ def check_filter(ctx, viol):
         for wave in ('waveimg', 'wset'):
             jobs.append(gen_filter_job(ctx, True, direction, wave, 'full'))
             jobs.append(gen_filter_job(ctx, False, direction, wave, 'full'))
+    # float32 and float64 flux on grids that only just reach into the toe of a band (the band overlaps: constant -> c)
+    for k in range(ctx.n(4, 16)):
+        band, side = ctx.rng.choice('ugriz'), ctx.rng.choice(['blue', 'red'])
+        jobs.append(gen_filter_job(ctx, False, ctx.rng.choice(['blue-to-red', 'red-to-blue']), ctx.rng.choice(['waveimg', 'wset']),
+                                   None, 'f4' if k % 4 != 3 else 'd', (band, side)))
     nb = min(C.NPROC, len(jobs))
     outs = C.run_impl_parallel('c19_impl.py', [jobs[k::nb] for k in range(nb)])
     results = [None] * len(jobs)
@@ -402,7 +494,8 @@ def check_filter(ctx, viol):
     nband = 0
     cover = {}
     for ji, (job, r) in enumerate(zip(jobs, results)):
-        small_in = {k: job[k] for k in ('nT', 'nx', 'loglam0', 'dloglam', 'wave', 'toair', 'a', 'b', 'c', 'cover', 'direction')}
+        small_in = {k: job[k] for k in ('nT', 'nx', 'loglam0', 'dloglam', 'wave', 'toair', 'a', 'b', 'c', 'cover', 'direction', 'dtype', 'predicted_edge_sum')}
+        ej = 1e-9 if job['dtype'] == 'd' else 5e-6      # comparison tolerance: float64 / float32 flux
         small_in['masked'] = job['mask'] is not None
         rep0 = {'kind': 'failing-input', 'input': small_in, 'job': job if job['nx'] <= 60 else None, 'seed_note': 'regenerate with the same VERIF_SEED'}
         if 'err' in r:
@@ -424,11 +517,11 @@ def check_filter(ctx, viol):
                     viol('C19:filter_thru:nonfinite', 'filter_thru returns a non-finite value (trace %d band %s)' % (t, 'ugriz'[i]), rep, True)
                     continue
                 c0 = job['c']
-                if vc != 0.0 and abs(vc - c0) > 1e-9 * max(1.0, abs(c0)):
+                if vc != 0.0 and abs(vc - c0) > ej * max(1.0, abs(c0)):
                     viol('C19:filter_thru:constant', 'constant spectrum %r gives %r in band %s (%s wavelength solution, %s)'
                          % (c0, vc, 'ugriz'[i], job.get('direction'), job['wave']), rep, True)
                 lo, hi = r.get('good_min', [None] * nT)[t], r.get('good_max', [None] * nT)[t]
-                if vc != 0.0 and lo is not None and (v1 < lo - 1e-9 * (1 + abs(lo)) or v1 > hi + 1e-9 * (1 + abs(hi))):
+                if vc != 0.0 and lo is not None and (v1 < lo - ej * (1 + abs(lo)) or v1 > hi + ej * (1 + abs(hi))):
                     viol('C19:filter_thru:bounds', 'band %s result %r outside [min, max] = [%r, %r] of the unmasked flux (%s wavelength solution)'
                          % ('ugriz'[i], v1, lo, hi, job.get('direction')), rep, True)
         if not r.get('weights_recorded'):
@@ -450,22 +543,22 @@ def check_filter(ctx, viol):
                 if not all(isnum(v) for v in (v1, v2, v3, vc)):
                     viol('C19:filter_thru:nonfinite', 'filter_thru returns a non-finite value (trace %d band %s)' % (t, 'ugriz'[i]), rep, True)
                     continue
-                scale = 1e-9 * (abs(a) * 32 + abs(b) * 12 + 1)
+                scale = ej * (abs(a) * 32 + abs(b) * 12 + 1)
                 if abs(v3 - (a * v1 + b * v2)) > scale:
                     viol('C19:filter_thru:linearity', 'filter_thru(a f + b g) = %r but a F(f) + b F(g) = %r (trace %d band %s)'
                          % (v3, a * v1 + b * v2, t, 'ugriz'[i]), rep, True)
                 if sw > 0:
-                    if abs(vc - c) > 1e-9 * max(1.0, abs(c)):
+                    if abs(vc - c) > ej * max(1.0, abs(c)):
                         viol('C19:filter_thru:constant', 'constant spectrum %r gives %r in band %s (sum of weights %r)' % (c, vc, 'ugriz'[i], sw), rep, True)
                     lo, hi = r['fmin'][t], r['fmax'][t]
-                    if v1 < lo - 1e-9 * (1 + abs(lo)) or v1 > hi + 1e-9 * (1 + abs(hi)):
+                    if v1 < lo - ej * (1 + abs(lo)) or v1 > hi + ej * (1 + abs(hi)):
                         viol('C19:filter_thru:bounds', 'band %s result %r outside [min, max] = [%r, %r] of the flux' % ('ugriz'[i], v1, lo, hi), rep, True)
                 else:
                     if v1 != 0.0 or vc != 0.0:
                         viol('C19:filter_thru:no-overlap', 'band %s does not overlap the wavelengths but the result is %r (constant: %r)' % ('ugriz'[i], v1, vc), rep, True)
                 if 'res_junk' in r and r['good_per_trace'][t] >= 2:
                     vj = r['res_junk'][t][i]
-                    if not isnum(vj) or abs(vj - v1) > 1e-9 * (1 + abs(v1)):
+                    if not isnum(vj) or abs(vj - v1) > ej * (1 + abs(v1)):
                         viol('C19:filter_thru:mask', 'changing the values of masked pixels changes band %s: %r -> %r' % ('ugriz'[i], v1, vj), rep, True)
                 if 'fitted' in r and 'resp' in r:
                     # raw ingredients per pixel: fitted d(log lambda) (either sign), interpolated response, (interpolated) flux
@@ -497,6 +590,7 @@ def check_filter(ctx, viol):
             'jobs': len(jobs), 'masked_jobs': sum(1 for j in jobs if j['mask'] is not None),
             'wset_jobs': sum(1 for j in jobs if j['wave'] == 'wset'), 'toair_jobs': sum(1 for j in jobs if j['toair']),
             'red_to_blue_jobs': sum(1 for j in jobs if j.get('direction') == 'red-to-blue'),
+            'float32_jobs': sum(1 for j in jobs if j.get('dtype') == 'f4'), 'edge_jobs': sum(1 for j in jobs if str(j.get('cover', '')).startswith('edge')),
             'sample': {'coq_case': (terms[0][:400] + ' ...') if terms else None}}
 
 
@@ -521,7 +615,7 @@ def correspond(ctx, proof_ok=True):
         'wave_cases_by_kind': w['kinds'], 'roundtrip_grid_points': w['grid'],
         'flux2ab_values': f['values'], 'flux2ab_enclosure_failures': f['failures'], 'flux2ab_observed_factors': f['factors'],
         'filter_bands': t['bands'], 'filter_cover': t['cover'], 'filter_jobs': t['jobs'], 'filter_masked_jobs': t['masked_jobs'],
-        'filter_wset_jobs': t['wset_jobs'], 'filter_toair_jobs': t['toair_jobs'], 'filter_red_to_blue_jobs': t['red_to_blue_jobs'],
+        'filter_wset_jobs': t['wset_jobs'], 'filter_toair_jobs': t['toair_jobs'], 'filter_red_to_blue_jobs': t['red_to_blue_jobs'], 'filter_float32_jobs': t['float32_jobs'], 'filter_edge_jobs': t['edge_jobs'],
         'coq_eval_s': round(w['coq_s'] + f['coq_s'] + t['coq_s'], 1),
         'samples': [w['sample'], {'flux2ab_lemma': f['sample_lemma']}, t['sample']],
     })
